@@ -2252,6 +2252,8 @@ class EvalExceptionFormatter:
         self.col_offset: int = 0
         self.end_col_offset: int = 0
 
+        self.class_def: ast.ClassDef | None = None
+
         self.stack = traceback.StackSummary()
         self._build_stack()
         self.chained_msg: str | None = None
@@ -2320,6 +2322,10 @@ class EvalExceptionFormatter:
 
                     for val in frame.f_locals.values():
                         if isinstance(val, (ast.expr, ast.stmt)) and hasattr(val, "lineno"):
+                            if self.class_def is not None and val in self.class_def.body:
+                                # Python runs the statements of a class body in a frame named after the class
+                                self.current_func = self.class_def.name
+                            self.class_def = val if isinstance(val, ast.ClassDef) else None
                             self.lineno = getattr(val, "lineno", self.lineno)
                             self.col_offset = getattr(val, "col_offset", self.col_offset)
                             self.end_col_offset = getattr(val, "end_col_offset", self.col_offset)
